@@ -63,3 +63,61 @@ pub fn value_case(case: &J) -> J {
         Err(p) => json!({"e": "panic", "where": "value-op", "id": 0, "message": panic_message(&p), "case": case}),
     }
 }
+
+/// C19: the real `Kind` operations on a TLC-generated kind, next to the real `Value` operations
+/// on one of its members.
+pub fn kind_case(case: &J) -> J {
+    use vrl::compiler::value::VrlValueArithmetic;
+    let r = catch_unwind(AssertUnwindSafe(|| {
+        let k = enc::json_to_kind(&case["k"]);
+        let v = enc::json_to_val(&case["v"]);
+        let p = enc::json_to_path(&case["p"]);
+        let kx = enc::json_to_kind(&case["kx"]);
+        let x = enc::json_to_val(&case["x"]);
+        let k2 = enc::json_to_kind(&case["k2"]);
+        let compact = case["compact"].as_bool().unwrap_or(false);
+
+        let at_path = k.at_path(&p);
+        let get = k.get(&p);
+        let mut kins = k.clone();
+        kins.insert(&p, kx.clone());
+        let mut krem = k.clone();
+        let removed_kind = krem.remove(&p, compact);
+        let union = k.union(k2.clone());
+        let mut merged = k.clone();
+        merged.merge(k2.clone(), vrl::value::kind::merge::Strategy { collisions: vrl::value::kind::merge::CollisionStrategy::Overwrite });
+        let sup = k.is_superset(&k2).is_ok();
+
+        let vget = opt(v.get(&p));
+        let mut vi = v.clone();
+        vi.insert(&p, x.clone());
+        let mut vr = v.clone();
+        let vremoved = vr.remove(&p, compact);
+        let (has_v2, v2) = match case.get("v2") {
+            Some(j) if j.get("t").is_some() => (true, enc::json_to_val(j)),
+            _ => (false, Value::Null),
+        };
+        let vmerge = if has_v2 {
+            match v.clone().try_merge(v2.clone()) {
+                Ok(m) => enc::val_to_json(&m),
+                Err(_) => json!({"t": "none"}),
+            }
+        } else {
+            json!({"t": "none"})
+        };
+        json!({"e": "kindop", "k": case["k"], "v": case["v"], "p": case["p"], "kx": case["kx"], "x": case["x"],
+               "k2": case["k2"], "v2": if has_v2 { case["v2"].clone() } else { json!({"t": "none"}) }, "compact": compact,
+               "rt": enc::kind_to_json(&k), "rtx": enc::kind_to_json(&kx), "rt2": enc::kind_to_json(&k2),
+               "at_path": enc::kind_to_json(&at_path), "get": enc::kind_to_json(&get),
+               "ins": enc::kind_to_json(&kins),
+               "rem": {"kind": enc::kind_to_json(&krem), "removed": enc::kind_to_json(&removed_kind)},
+               "union": enc::kind_to_json(&union), "merge": enc::kind_to_json(&merged), "sup": sup,
+               "vget": vget, "vins": enc::val_to_json(&vi),
+               "vrem": {"val": enc::val_to_json(&vr), "removed": opt(vremoved.as_ref())},
+               "vmerge": vmerge})
+    }));
+    match r {
+        Ok(j) => j,
+        Err(p) => json!({"e": "panic", "where": "kind-op", "id": 0, "message": panic_message(&p), "case": case}),
+    }
+}
